@@ -355,6 +355,43 @@ func drive(prop, tier string) int {
 		vios = append(vios, vio{sig, rf.Detail, path})
 	}
 
+	// hang candidates: re-execute each alone (no other worker running) in a fresh process; only a
+	// call that exceeds the watchdog bound again is reported
+	hangNotReproduced := 0
+	for _, r := range results {
+		if !r.HangCandidate {
+			continue
+		}
+		cmd := exec.Command(exe, "case", prop, tier, strconv.FormatInt(seed, 10), strconv.Itoa(r.Case))
+		cmd.Env = append(os.Environ(), "GOMAXPROCS=4")
+		if p.External != nil {
+			cmd = exec.Command(extBin(p), p.External.Args...)
+			cmd.Env = append(append(os.Environ(), "GOMAXPROCS=4", p.External.Env+"=case,"+tier+","+strconv.FormatInt(seed, 10)+","+strconv.Itoa(r.Case), "VERIF_SPEC_PROP="+prop), p.External.ExtraEnv...)
+		}
+		outB, _ := cmd.Output()
+		if i := bytes.IndexByte(outB, '{'); i > 0 {
+			outB = outB[i:]
+		}
+		if j := bytes.IndexByte(outB, '\n'); j > 0 {
+			outB = outB[:j]
+		}
+		var again fw.CaseResult
+		confirmed := false
+		if json.Unmarshal(outB, &again) == nil {
+			for _, v := range again.Violations {
+				if strings.HasPrefix(v.Sig, "hang") || strings.Contains(v.Sig, "/hang") {
+					confirmed = true
+					rf := &fw.ReplayFile{Property: prop, Engine: p.Engine, Tier: tier, Seed: seed, Case: r.Case, Signature: v.Sig, Detail: v.Detail + "\n  (watchdog exceeded in a loaded worker AND when re-executed alone; not minimised)", Desc: again.Desc, Decisions: again.Decisions, OrigLen: len(again.Decisions)}
+					path, _ := fw.WriteReplay(verifDir+"/replays", rf)
+					vios = append(vios, vio{v.Sig, rf.Detail, path})
+				}
+			}
+		}
+		if !confirmed {
+			hangNotReproduced++
+		}
+	}
+
 	// aggregate
 	sort.Slice(results, func(i, j int) bool { return results[i].Case < results[j].Case })
 	distinct := map[string]bool{}
